@@ -16,14 +16,16 @@ DESIGN_REF = "6/C09"
 LEAN_MODULES = ["Clikit.Props.C09"]
 REQUIRED_THEOREMS = ["Clikit.Props.C09." + n for n in (
     "io_perm_invariant", "io_after_dashes", "help_after_dashes", "quiet_iff", "no_interaction_iff", "verbosity_levels",
-    "ansi_precedence", "quiet_silences_run", "help_switch_iff", "version_switch", "version_absent")]
+    "ansi_precedence", "quiet_silences_run", "help_switch_iff", "version_switch", "version_absent",
+    "io_depends_on_membership", "verbosity_monotone_output", "io_only_option_tokens", "io_tail_irrelevant")]
 TECHNIQUE = ("Lean 4 theorems about the switch decisions translated from DefaultApplicationConfig.create_io / "
              "resolve_help_command / print_version on every run (py-AST -> Lean), composed with the C08/C10/C04 results + "
              "differential runs of the real default application with switches inserted at every admissible position")
 LEVEL_TEXT = ("The decisions of create_io (ANSI mode, verbosity, quiet, interaction), of the help listener and of the version "
               "listener are regenerated from the source into Lean on every run; proved for ALL token lists: the I/O "
               "configuration depends only on which tokens occur before `--` (permutation invariance), tokens after `--` "
-              "have no effect, quiet/no-interaction/help iff their tokens are among the option tokens, the verbosity and "
+              "have no effect (io_after_dashes for a prefix without `--`; io_only_option_tokens / io_tail_irrelevant without "
+              "any hypothesis, for every token list), quiet/no-interaction/help iff their tokens are among the option tokens, the verbosity and "
               "ANSI precedence rules, quiet drops every write incl. the error report (via C10), the version listener ends "
               "the run with status 0 without invoking the handler (via C04). That the running application really behaves "
               "as these decisions say (streams, handler-observed state, help/version pages, status) is checked by "
@@ -43,6 +45,10 @@ TRUSTED_BASE = [
 ASSUMPTIONS = [
     "switches are inserted at item boundaries (never between an option and its separate value); `-v` is an optional-value option, so a following positional is consumed - the I/O effect is the same, the command's arguments are not",
     "real TTY capability detection is outside; `auto` is exercised with streams that report ANSI support",
+    "the theorems have no hypothesis about real objects: the only inputs of the model are the tokens; that the list "
+    "`has_option_token` tests (RawArgs.option_tokens) is the model's optionTokens is compared on every case; the version "
+    "theorems take `the parsed args have the version option set` as the parameter of versionListener (its link to the "
+    "tokens --version / -V is stated by the oracle, not proved: it goes through the args parser, C01)",
 ]
 BATCH = 600
 
@@ -189,11 +195,13 @@ def model_requests(case):
 def model_obs(case, answers):
     a = answers[0]
     return {"cfg": {"ansi": a["ansi"], "verbosity": a["verbosity"], "quiet": a["quiet"], "interactive": a["interactive"]},
-            "help_switch": a["help"]}
+            "help_switch": a["help"],
+            "option_tokens": ["".join(map(chr, t)) for t in a["option_tokens"]]}
 
 
 def impl_view(case, obs):
-    return {"cfg": obs["cfg"], "help_switch": obs["help_switch"]}
+    # option_tokens: the list every theorem's `hasTok` tests membership in is the real RawArgs.option_tokens
+    return {"cfg": obs["cfg"], "help_switch": obs["help_switch"], "option_tokens": obs["option_tokens"]}
 
 
 def oracle(case, obs):
